@@ -374,6 +374,12 @@ def rule_identity(ctx):
     if not n_sites:
         r.ok(f"{C.INTERFACE}::C13-IDENTITY", "", f"no identity test on {len(opts)} keyed options in "
              f"{len(scope)} functions of the build/execute closure", options=sorted(opts))
+        if not getattr(ctx, "_is_positive_example", False):
+            r.note(C.positive_example(
+                ctx, rule_identity,
+                [(C.CONTRACT, "        if (prefer_einsum or not tree.get_can_dot(p))",
+                  "        if ((prefer_einsum is True) or not tree.get_can_dot(p))")],
+                "prefer_einsum"))
     return r
 
 
